@@ -28,6 +28,7 @@ import (
 	"crypto/sha256"
 	"crypto/x509"
 	"encoding/base64"
+	"encoding/hex"
 	"errors"
 	"fmt"
 	"io"
@@ -751,6 +752,16 @@ func (a *Authenticator) handleSessionResumption(ctx context.Context, sessionID s
 		responseAd := classad.New()
 		_ = responseAd.Set("ReturnCode", "AUTHORIZED")
 		_ = responseAd.Set("Sid", sessionID)
+		// Freshness: the request and this reply are the only cleartext of a resumed
+		// connection and are otherwise identical every time, so a recorded connection
+		// could be replayed verbatim. A random value here changes the handshake digest
+		// that the first protected frame in each direction is bound to; peers that do
+		// not know the attribute ignore it.
+		nonce := make([]byte, 16)
+		if _, err := rand.Read(nonce); err != nil {
+			return nil, fmt.Errorf("failed to generate resumption nonce: %w", err)
+		}
+		_ = responseAd.Set("ResumeNonce", hex.EncodeToString(nonce))
 
 		responseMsg := message.NewMessageForStream(a.stream)
 		if err := responseMsg.PutClassAd(ctx, responseAd); err != nil {
